@@ -31,6 +31,15 @@ ASSUME \A a, b \in EdgeU : (EdgeCmp(a, b) = 0) <=> EdgeEq(a, b)
 ASSUME \A a, b \in EdgeU : EdgeCmp(a, b) = -EdgeCmp(b, a)
 ASSUME \A a, b, c \in EdgeU : (EdgeCmp(a, b) <= 0 /\ EdgeCmp(b, c) <= 0) => EdgeCmp(a, c) <= 0
 
+(* the named GraphSpecs constructors, as the documentation states them *)
+SpecsOf(d, m, s, miss) == [directed |-> d, multi |-> m, loops |-> s, dedupe |-> "Error", missing |-> miss, loopfalse |-> "Error"]
+Ctors == [directed |-> SpecsOf(TRUE, FALSE, FALSE, "Error"),
+          directed_create_missing |-> SpecsOf(TRUE, FALSE, FALSE, "Create"),
+          undirected |-> SpecsOf(FALSE, FALSE, FALSE, "Error"),
+          undirected_create_missing |-> SpecsOf(FALSE, FALSE, FALSE, "Create"),
+          multi_directed |-> SpecsOf(TRUE, TRUE, TRUE, "Error"),
+          multi_undirected |-> SpecsOf(FALSE, TRUE, TRUE, "Error")]
+
 (* ---- trace monitor: one event holds every observation over the universe ---- *)
 Rec == ndJsonDeserialize(IOEnv.TRACE)
 VARIABLES l
@@ -46,6 +55,7 @@ Checks(e) ==
     <<"edge_eq", \A i \in DOMAIN e.edge2 : e.edge2[i].eq = EdgeEq(E(e.edge2[i].a), E(e.edge2[i].b))>>,
     <<"edge_cmp", \A i \in DOMAIN e.edge2 : e.edge2[i].cmp = EdgeCmp(E(e.edge2[i].a), E(e.edge2[i].b))>>,
     <<"edge_hash_agrees_with_eq", \A i \in DOMAIN e.edge2 : EdgeEq(E(e.edge2[i].a), E(e.edge2[i].b)) => e.edge2[i].same_hash>>,
+    <<"graph_specs_constructors", e.ctors = Ctors>>,
     <<"node_eq", \A i \in DOMAIN e.node2 : e.node2[i].eq = NodeEq(N(e.node2[i].a), N(e.node2[i].b))>>,
     <<"node_cmp", \A i \in DOMAIN e.node2 : e.node2[i].cmp = NodeCmp(N(e.node2[i].a), N(e.node2[i].b))>>,
     <<"node_hash_agrees_with_eq", \A i \in DOMAIN e.node2 : NodeEq(N(e.node2[i].a), N(e.node2[i].b)) => e.node2[i].same_hash>>>>
